@@ -57,6 +57,17 @@ func Generate(r *rng.R, tier string, n int, emit func(*common.Case)) {
 	for i := 0; i < n && !lcw.Diverged; i++ {
 		sub := r.U64()
 		cr := rng.New(sub)
+		// every sixth case or so: a history around `add -configfile` (r5_c02.go); drawn from a fork of
+		// the case seed so that the other cases stay what they were
+		if tr := rng.New(sub ^ 0x5c02); tr.Chance(1, 6) {
+			c, err := run(templateHistory(tr))
+			if err != nil {
+				panic(err)
+			}
+			c.Sub = sub
+			emit(c)
+			continue
+		}
 		var in lcw.Input
 		if cr.Chance(1, 6) {
 			ws := lcw.WorldSpec{BaseName: "b", NoSkeleton: true, HostLayout: "plain"}
